@@ -36,7 +36,7 @@ BOUNDED = [
                  'ml_pipeline_engine/dag/retrying.py::', 'ml_pipeline_engine/context/dag.py::', 'ml_pipeline_engine/node/node.py::',
                  'ml_pipeline_engine/chart.py::', 'ml_pipeline_engine/dag/graph.py::'),
          script='bounded/engine.py',
-         props=('C01', 'C02', 'C03', 'C04', 'C05', 'C09', 'C10', 'C11', 'C12', 'C13', 'C14', 'C19')),
+         props=('C01', 'C02', 'C03', 'C04', 'C05', 'C07', 'C09', 'C10', 'C11', 'C12', 'C13', 'C14', 'C19')),
 ]
 VENV_PY = '/venv/bin/python'
 
@@ -186,6 +186,36 @@ def check_property(prop, tier='quick', seed=0):
                 undecided_keys.pop(k)
     for msgs in undecided_keys.values():
         undecided.extend(msgs)
+
+    # refuted obligations for which the verifier produced no input that fails on the real code (all coroutine-level
+    # clauses): search the bounded family for one.  A hit is a real failing input for this property on this tree; it goes
+    # into the replay file and the VIOLATION line then carries no `no-failing-input-found`.
+    if any(not rep_ for _v, _p, rep_ in violations):
+        name_to_key = {c.name: c.key for c in contracts}
+        for h in BOUNDED:
+            if prop not in h['props']:
+                continue
+            todo = [i for i, (v, _p, rep_) in enumerate(violations) if not rep_
+                    and name_to_key.get(v['name'].split('#')[0], '').startswith(tuple(h['prefix']))]
+            if not todo:
+                continue
+            b = next((b_ for b_ in bounded_runs if b_.get('script') == h['script']), None) or run_bounded(h, prop, out_dir)
+            if b not in bounded_runs:
+                b['stands_in_for'] = []
+                bounded_runs.append(b)
+            if b.get('ok') is False:
+                for i in todo:
+                    v, path, _r = violations[i]
+                    try:
+                        payload = json.load(open(path))
+                        payload['replay'] = dict(replayed=True, reproduced=True, how='bounded search for a failing input on the real code '
+                                                 f"({h['script']}, {b['cases']} cases): not the solver's model, but an input of the "
+                                                 'same tree that violates the same property', failing_inputs=b['failures'][:5],
+                                                 all_failures=b['path'])
+                        json.dump(payload, open(path, 'w'), indent=1, default=str)
+                    except Exception:   # noqa: BLE001
+                        continue
+                    violations[i] = (v, path, True)
 
     # a listed open finding whose obligation is now discharged: report it (stale entry), not an error
     stale = [k for name, k in open_known.items() if name not in {v['name'] for _k, v in known_hits}
